@@ -11,14 +11,16 @@ ID = 'C14'
 RULE = ('metamorphic pairs on the real code: every built-in markup snippet of html / xsl / pug x 7 syntaxes x suffix forms (none, .c[x=1], {t}, *2, /, >b, >itself, '
         'inside a larger abbreviation), definition spliced as text (/ kept last; attribute/text/repeat/close suffixes on single-top-level definitions, >b on '
         'definitions whose deepest node is an element); user snippets with several top-level nodes for the "applied to the top-level elements" clause; '
-        'termination + depth on random user tables of 1-6 snippets over 4 names with self and mutual references. Non-trivial = the alias differs from its '
+        'termination + depth on random user tables of 1-6 snippets over 4 names with self and mutual references and on tables with a forced reference cycle of 2-5; '
+        'context independence on those tables (formatting off: expand(A+B) = expand(A) expand(B), also under a parent and around a sibling) - on cyclic tables the cycle '
+        'guard cuts "the definition in its place" depending on where resolution started, so the splice oracle is not used there. Non-trivial = the alias differs from its '
         'definition text; distinct by (alias, suffix, syntax) / table')
 ASSUMPTIONS = ['text-only definitions have no deepest element: no >b pair for them; definitions that already carry text get no {t} pair',
                'whether a definition has a single top-level node is decided on its text (operators outside brackets, braces and quotes)',
                'user tables reference only their own names, so the nesting bound is the number of user snippets',
                'termination decided on logical steps (20M line events)']
-FLOORS = {'quick': {'builtin-pair': 6000, 'multi-top-pair': 150, 'user-table': 4000, 'user-chain-pair': 1500}, 'thorough': {'builtin-pair': 6000, 'multi-top-pair': 150, 'user-table': 180000, 'user-chain-pair': 100000}}
-REQUIRED_MONITORS = ['oracle:alias-equals-definition', 'oracle:multi-top', 'termination:bounded', 'probe:resolve-depth']
+FLOORS = {'quick': {'builtin-pair': 6000, 'multi-top-pair': 150, 'user-table': 4000, 'user-chain-pair': 1500, 'sibling-pair': 20000}, 'thorough': {'builtin-pair': 6000, 'multi-top-pair': 150, 'user-table': 180000, 'user-chain-pair': 100000, 'sibling-pair': 500000}}
+REQUIRED_MONITORS = ['oracle:alias-equals-definition', 'oracle:multi-top', 'oracle:context-independent', 'termination:bounded', 'probe:resolve-depth']
 SYNTAXES = ['html', 'xsl', 'pug', 'jsx', 'xml', 'haml', 'slim']
 NTABLES = {'quick': 700, 'thorough': 12000}
 
@@ -34,6 +36,7 @@ def shards(tier, seed):
     out += [{'kind': 'chain', 'n': 150 if tier == 'quick' else 4000} for _ in range(2 if tier == 'quick' else 8)]
     n = 6 if tier == 'quick' else 15
     out += [{'kind': 'user', 'n': NTABLES[tier]} for _ in range(n)]
+    out += [{'kind': 'user', 'cyclic': True, 'n': NTABLES[tier] // 2} for _ in range(n // 3)]
     return out
 
 
@@ -104,8 +107,6 @@ class Mon:
 
     def pair(self, label, alias, defn, cfg, cls, mon):
         ctx = self.ctx
-        ctx.ev(cls)
-        ctx.mon(mon)
         case = {'label': label, 'alias': alias, 'definition': defn, 'config': cfg}
         ra = core.call(self.expand, alias, dict(cfg))
         rd = core.call(self.expand, defn, dict(cfg))
@@ -114,6 +115,8 @@ class Mon:
         if rd[0] == 'exc':
             ctx.mon('workload:definition-splice-does-not-parse')
             return
+        ctx.ev(cls)         # only compared pairs count towards the floors
+        ctx.mon(mon)
         if (cfg.get('options') or {}).get('output.reverseAttributes') and ra[0] == 'ok':
             # reverse mode puts the alias attributes first by design: compare modulo attribute and class-token order
             try:
@@ -168,6 +171,70 @@ def user_table(rng):
     return tbl
 
 
+def cyclic_table(rng):
+    "a reference cycle of 2-5 snippets (each definition mentions the next one somewhere), plus random extras"
+    names = ['va', 'vb', 'vc', 'vd', 'vg']
+    k = rng.randint(2, 5)
+    cyc = rng.sample(names, k)
+    tbl = user_table(rng) if rng.random() < 0.4 else {}
+    for i, nm in enumerate(cyc):
+        nxt = cyc[(i + 1) % k]
+        own = rng.choice(['x-e', 'x-f', 'x-h%d' % i])
+        deco = rng.choice(['', '', '.c', '[a=b]', '{t}'])
+        tbl[nm] = rng.choice(['%s%s>%s', '%s%s+%s', '%s%s', 'x-o>%s%s+%s', '%s%s>%s>x-i']).replace('%s', '{0}', 1).replace('%s', '{1}', 1).replace('%s', '{2}', 1).format(nxt, deco, own)
+    return tbl
+
+
+def sibling_independence(mon, ctx, rng, tbl):
+    """What an alias expands to does not depend on what else stands in the abbreviation: with formatting
+    off, expand(A+B) is expand(A) followed by expand(B), and expand(x-p>A+B) wraps the same in <x-p>.
+    (On tables with cycles 'the definition in its place' is cut by the cycle guard at a place that depends on
+    where resolution started, so the splice oracle is not used there - this one holds regardless.)"""
+    names = sorted(tbl)
+    cfg = {'syntax': rng.choice(['html', 'jsx', 'xml']), 'snippets': tbl, 'options': {'output.format': False}}
+    alone = {}
+    for nm in names:
+        for sfx in ('', rng.choice(['.k', '[q=1]', '>x-z', '*2'])):
+            r = core.call(mon.expand, nm + sfx, dict(cfg))
+            if r[0] == 'ok':
+                alone[nm + sfx] = r[1]
+    keys = sorted(alone)
+    if len(keys) < 2:
+        return
+    pairs = [(a, b) for a in keys for b in keys]
+    if len(pairs) > 40:
+        pairs = rng.sample(pairs, 40)
+    for a, b in pairs:
+        sib_check(mon, ctx, tbl, cfg['syntax'], rng.choice(SIB_SHAPES), a, b, alone)
+
+
+SIB_SHAPES = ['(%s)+(%s)', '(%s)+%s', 'x-p>(%s)+(%s)', '(%s)+x-m+(%s)', '(%s)+x-m+%s']
+
+
+def sib_check(mon, ctx, tbl, syntax, shape, a, b, alone=None):
+    cfg = {'syntax': syntax, 'snippets': tbl, 'options': {'output.format': False}}
+    if alone is None:
+        alone = {}
+        for x in (a, b):
+            r = core.call(mon.expand, x, dict(cfg))
+            if r[0] != 'ok':
+                return
+            alone[x] = r[1]
+    ab = shape % (a, b)
+    want = alone[a] + ('<x-m></x-m>' if 'x-m' in shape else '') + alone[b]
+    if shape.startswith('x-p'):
+        want = '<x-p>' + want + '</x-p>'
+    ctx.ev('sibling-pair')
+    ctx.mon('oracle:context-independent')
+    r = core.call(mon.expand, ab, dict(cfg))
+    got = r[1] if r[0] == 'ok' else 'EXC %s' % (core.exc_site(r[1]),)
+    if got != want:
+        ctx.violation('alias-result-depends-on-siblings', {'table': tbl, 'abbr': ab, 'config': {'syntax': syntax}, 'parts': [a, b], 'shape': shape},
+                      {'got': got[:300], 'parts_alone_concatenated': want[:300]})
+    elif a != b:
+        ctx.seen((repr(sorted(tbl.items())), ab))
+
+
 def run_shard(desc, ctx):
     mon = Mon(ctx)
     from emmet.config import Config
@@ -220,14 +287,14 @@ def run_shard(desc, ctx):
         elif desc['kind'] == 'chain':
             rng = ctx.rng
             for _ in range(desc['n']):
-                depth = rng.randint(2, 9)
+                nlinks = rng.randint(2, 9)
                 tbl = {}
-                for d in range(depth):
-                    nxt = 'w%d' % (d + 1) if d < depth - 1 else rng.choice(['x-end', 'x-end[z]', 'x-end>x-in'])
+                for d in range(nlinks):
+                    nxt = 'w%d' % (d + 1) if d < nlinks - 1 else rng.choice(['x-end', 'x-end[z]', 'x-end>x-in'])
                     deco = rng.choice(['', '.c%d' % d, '[a%d=%d]' % (d, d), '{t%d}' % d, '.k[m=%d]' % d])
                     shape = rng.choice(['%s%s', 'x-o%d>%%s%%s' % d, '%s%s+x-s', '(%s%s)'])
                     tbl['w%d' % d] = shape % (nxt, deco)
-                for d in rng.sample(range(depth), min(3, depth)):
+                for d in rng.sample(range(nlinks), min(3, nlinks)):
                     key = 'w%d' % d
                     for label, a, dd in pairs_for(key, tbl[key]):
                         if label in ('plain', 'inside', 'attrs', 'child', 'repeat'):
@@ -242,7 +309,7 @@ def run_shard(desc, ctx):
         else:
             rng = ctx.rng
             for _ in range(desc['n']):
-                tbl = user_table(rng)
+                tbl = cyclic_table(rng) if desc.get('cyclic') else user_table(rng)
                 for name in sorted(tbl):
                     ctx.ev('user-table')
                     ab = name + rng.choice(['', '.k', '*2', '>x-z', '{w}'])
@@ -265,6 +332,8 @@ def run_shard(desc, ctx):
                         if depth['max'] > len(tbl):
                             ctx.violation('probe:resolve-depth', case, {'snippets': len(tbl), 'max_stack_depth': depth['max']})
                     ctx.seen((repr(sorted(tbl.items())), ab))
+                if desc.get('cyclic') or rng.random() < 0.5:
+                    sibling_independence(mon, ctx, rng, tbl)
                     if len(ctx.samples) < 4 and len(tbl) >= 3 and depth['max'] >= 2:
                         ctx.sample({'user_snippets': tbl, 'abbreviation': ab, 'returned': r[1][:160], 'max_resolution_depth': depth['max']})
     finally:
@@ -284,7 +353,9 @@ def replay(case, ctx):
         ctx.ev('replay')
         cfg = dict(case['config'], snippets=case['table'])
         r = probes.bounded(lambda: mon.expand(case['abbr'], cfg), ctx, 'expand')
-        if r[0] == 'nonterm':
+        if 'parts' in case and r[0] == 'ok':
+            sib_check(mon, ctx, case['table'], case['config']['syntax'], case['shape'], case['parts'][0], case['parts'][1])
+        elif r[0] == 'nonterm':
             ctx.violation('non-termination', case, {'steps': r[1]})
         elif r[0] == 'exc':
             ctx.violation('exception', case, {'exc': list(core.exc_site(r[1]))})
